@@ -57,12 +57,13 @@ impl HuffmanTree {
         };
 
         // Assign codes
-        let mut curr_code = 0;
-        let mut next_codes = [0; MAX_ALLOWED_CODE_LENGTH + 1];
+        let mut curr_code: u32 = 0;
+        let mut next_codes = [0u16; MAX_ALLOWED_CODE_LENGTH + 1];
         let max_code_length = code_length_hist.iter().rposition(|&x| x != 0).unwrap() as u16;
         for code_len in 1..usize::from(max_code_length) + 1 {
-            next_codes[code_len] = curr_code;
-            curr_code = (curr_code + code_length_hist[code_len]) << 1;
+            // `curr_code` exceeds 16 bits only for over-subscribed lengths, which are rejected below.
+            next_codes[code_len] = curr_code as u16;
+            curr_code = (curr_code + u32::from(code_length_hist[code_len])) << 1;
         }
 
         // Confirm that the huffman tree is valid
